@@ -191,3 +191,11 @@ def inherit(db, ctx):
     C09.offsets(db, ctx)
     C14.merged_fields(db, ctx)
     ctx.floor(10)
+
+
+@rule("C01.map-compose", "successive rewrite batches compose: every value stored into the new byte map is read from the previous map (re-evaluation "
+                         "of C08.compose — a map built from positions of the current text is only right for the first batch)")
+def map_compose(db, ctx):
+    from . import C08
+    C08.compose(db, ctx)
+    ctx.floor(4)
